@@ -438,6 +438,23 @@ class Pass1(CompilePass):
         self.compilation.data[self._last_label].extend(node.items)
 
 
+def _misplaced_block_stmt(self, node):
+    # The statements that open or close a block are consumed when the
+    # block is built. One that is still in a statement list has no
+    # partner at its own level (it sits in a single-line IF, or behind
+    # ELSEIF ... THEN).
+    raise CompileError(
+        EC.BLOCK_MISMATCH,
+        f'{node.node_name()} is not allowed here',
+        node=node)
+
+
+for _name in ('next', 'wend', 'loop', 'end_if', 'end_select', 'end_sub',
+              'end_function', 'end_type', 'for', 'while', 'do',
+              'if_begin', 'select', 'sub', 'function', 'type'):
+    setattr(Pass1, f'process_{_name}_pre', _misplaced_block_stmt)
+
+
 class Pass2(CompilePass):
     # This pass does the following:
     #
